@@ -138,7 +138,7 @@ func verifNewRig(allowLocalhost bool, check string) *verifRig {
 	table.Configure()
 	Configure()
 	table.CreateFIBTable("nametree")
-	if !r.lite {
+	if !r.lite || check == "C02" {
 		r.multicast = verifBool("multicast")
 	}
 	if r.multicast {
@@ -248,6 +248,9 @@ func (r *verifRig) genInterest(allowLocalhost bool) verifInterestIn {
 			in.nextHop = 1 + verifChoice("nhface", len(r.faces))
 		}
 	case "C02":
+		if r.lite {
+			break // scripted shapes: plain Interests with a nonce, no hop limit
+		}
 		if verifParam("nhfi", 0) != 0 && verifBool("nhfi") {
 			in.nextHop = 1 + verifChoice("nhface", len(r.faces))
 		}
